@@ -28,12 +28,6 @@ Proof.
   - apply andb_true_iff in Hl as [Ha Hl]. rewrite Ha. now apply IH.
 Qed.
 
-Lemma str_eqb_eq : forall a b, str_eqb a b = true -> a = b.
-Proof.
-  induction a as [|x a IH]; intros [|y b] H; cbn in H; try discriminate; [reflexivity|].
-  apply andb_true_iff in H as [H1 H2]. apply N.eqb_eq in H1. subst. f_equal. now apply IH.
-Qed.
-
 Lemma skip_ws_cons : forall c r, is_gap c = false -> skip_ws (c :: r) = c :: r.
 Proof. intros c r H. unfold skip_ws. cbn. now rewrite H. Qed.
 
@@ -116,17 +110,6 @@ Proof.
   destruct (uint_of_str v) as [u'|]; [|discriminate]. injection H as <-.
   unfold digit_of in Ed. destruct c as [|p]; [discriminate|].
   repeat (destruct p as [p|p|]; try discriminate); injection Ed as <-; try reflexivity; congruence.
-Qed.
-
-Lemma parse_i64_digit_head : forall c r, is_digit c = true ->
-  parse_i64 (c :: r)
-  = match parse_nat_str (c :: r) with
-    | Some n => if in_i64 (Z.of_N n) then Some (Z.of_N n) else None
-    | None => None
-    end.
-Proof.
-  intros c r Hc. unfold parse_i64. destruct c as [|p]; [discriminate|].
-  repeat (destruct p as [p|p|]; try reflexivity; try discriminate Hc).
 Qed.
 
 Lemma canonical_int_roundtrip : forall v, is_canonical_int v = true ->
